@@ -436,7 +436,11 @@ fn server_dir(cfg: &Cfg, rng: &mut Rng) {
                     let flags = F_VERSION1 | if need_reply { F_NEED_REPLY } else { 0 };
                     sys::send_all(peer.as_raw_fd(), &spec::msg(op.code(), flags, &body), &fds).expect("send request");
                     let before = be.lock().unwrap().log.len();
-                    let res = util::catch(|| srv.handle_request());
+                    let sfd = srv.as_raw_fd();
+                    let (res, srv_blocked) = util::serve_bounded(sfd, || srv.handle_request());
+                    if srv_blocked {
+                        viol(cfg, &format!("srv:{}:waits-for-more-than-the-request", op.name()), "srv", jo! {"op" => op.j(), "need_reply" => need_reply, "certificate" => "server parked in recvmsg, nothing queued, the complete spec-encoded request had been written"});
+                    }
                     report::eval(1);
                     report::count(&format!("srv.{}", op.name()), 1);
                     report::distinct(report::hash_mix(
